@@ -354,6 +354,33 @@ pub fn run_c15(ctx: &mut Ctx) {
     );
     run_prop(
         ctx,
+        "fens_of_extreme_legal_material",
+        || (prop_oneof![3 => placement_crowd(), 1 => placement_fan()], counter_half(), counter_full()),
+        t.pick(60_000, 900_000),
+        |(r, half, full), st| {
+            let Some(p) = build_placement(r) else {
+                st.label("recipe_discarded");
+                return Ok(());
+            };
+            let s = p.fen_with(*half, *full);
+            st.sample(|| json!({"string": s}));
+            if must_accept(&s).is_none() {
+                return Err(format!("HARNESS: generated FEN {:?} is not accepted by the strict reader", s));
+            }
+            let men = |c: Color, k: Kind| p.sq.iter().filter(|x| **x == Some((c, k))).count();
+            for c in [Color::White, Color::Black] {
+                for (k, n) in [(Kind::Queen, 9), (Kind::Rook, 10), (Kind::Bishop, 10), (Kind::Knight, 10)] {
+                    if men(c, k) == n {
+                        st.label(&format!("side_with_{}_{:?}s", n, k));
+                    }
+                }
+            }
+            c15_string(&s, st)
+        },
+        |(r, half, full)| json!({"string": build_placement(r).map(|p| p.fen_with(*half, *full))}),
+    );
+    run_prop(
+        ctx,
         "one_field_twins_loaded_back_to_back",
         twin_strategy,
         t.pick(120_000, 2_000_000),
